@@ -149,6 +149,72 @@ def r7_mut_self(sig, body):
     return sig, body, 0
 
 
+def r14_impl_trait_args(sig):
+    """fn f<G>(.., x: &mut impl Tr<'a>, ..)  ->  fn f<G, VerifI0: Tr<'a>>(.., x: &mut VerifI0, ..)
+    (argument-position impl Trait is an anonymous generic parameter: the language's own desugaring)"""
+    hits = 0
+    while True:
+        toks, match = _toks(sig)
+        # parameter list = first '(' after `fn name [<..>]`
+        fn_i = next(i for i, t in enumerate(toks) if t.text == "fn")
+        j = fn_i + 2
+        gen_open = gen_close = None
+        if toks[j].text == "<":
+            gen_open = j
+            depth = 0
+            while True:
+                if toks[j].text == "<":
+                    depth += 1
+                elif toks[j].text in (">", ">>"):
+                    depth -= len(toks[j].text)
+                    if depth <= 0:
+                        break
+                j += 1
+            gen_close = j
+            j += 1
+        if toks[j].text != "(":
+            raise Undecided("R14: cannot find parameter list")
+        po, pc = j, match[j]
+        k = po + 1
+        found = None
+        while k < pc:
+            if toks[k].kind == "ident" and toks[k].text == "impl":
+                found = k
+                break
+            k += 1
+        if found is None:
+            return sig, hits
+        # bound extends to the next ',' or ')' at depth 0 (angle brackets counted)
+        e = found + 1
+        depth = 0
+        while e < pc:
+            tx = toks[e].text
+            if tx in ("(", "["):
+                e = match[e] + 1
+                continue
+            if tx == "<":
+                depth += 1
+            elif tx == ">":
+                depth -= 1
+            elif tx == ">>":
+                depth -= 2
+            elif tx == "," and depth == 0:
+                break
+            e += 1
+        bound = sig[toks[found + 1].start:toks[e - 1].end]
+        name = "VerifI%d" % hits
+        new_sig = sig[:toks[found].start] + name + sig[toks[e - 1].end:]
+        # add generic
+        if gen_open is not None:
+            ins = toks[gen_close].end - 1
+            new_sig = new_sig[:ins] + ", %s: %s " % (name, bound) + new_sig[ins:]
+        else:
+            ins = toks[fn_i + 1].end
+            new_sig = new_sig[:ins] + "<%s: %s>" % (name, bound) + new_sig[ins:]
+        sig = new_sig
+        hits += 1
+
+
 def r9_math_inc(text, names):
     """PATH += 1;  ->  PATH = verif_math_inc(PATH);   for the listed statistic counters.
     Machine arithmetic treated as mathematical for these counters (listed assumption)."""
@@ -292,6 +358,13 @@ def strip_attrs_and_docs(text, keep_derive=False):
 
 def r8_pub_fields(text):
     """make a struct and its named fields pub (visibility only)."""
+    # pub(super) / pub(crate) / pub(in ..) -> pub
+    toks, match = _toks(text)
+    edits = []
+    for i, t in enumerate(toks):
+        if t.text == "pub" and i + 1 < len(toks) and toks[i + 1].text == "(" and toks[i + 2].text in ("super", "crate", "in", "self"):
+            edits.append((toks[i + 1].start, toks[match[i + 1]].end, ""))
+    text = _apply(text, edits)
     toks, match = _toks(text)
     edits = []
     # struct keyword
@@ -462,6 +535,9 @@ class FnItem:
             hits["R9"] = h
         sig, body, h = r7_mut_self(sig, body)
         hits["R7"] = h
+        if sp.get("impl_trait_args"):
+            sig, h = r14_impl_trait_args(sig)
+            hits["R14"] = h
         for extra in sp.get("extra_rewrites", []):
             body, h = extra(body)
             hits[extra.__name__] = h
